@@ -646,3 +646,46 @@ def _event_obj(vc, spec, **cols):
     o = type(C.__name__ + "Row", (), ns)()
     o.__dict__.update(cols)
     return o
+
+
+@obligation("C01", "sensor_event_bounded", ensures=["B-C01-sensor-event.space-based", "B-C01-sensor-event.ground-based"],
+            fns=[SAE + "SensorAdditionEvent.fromConfig", SAE + "SensorAdditionEvent.handleEvent", "resonaate.scenario.config.agent_config:SensingAgentConfig"], mode="Z", native_only=True, samples=6,
+            bounded="BOUNDED stand-in, not a proof (pydantic models and the ORM constructor are outside the extracted subset): optical and radar sensors on a spacecraft and on a ground facility, "
+                    "sampled orbit radius / site coordinates and start offsets",
+            note="a sensor-addition event built from its configuration and handed to the scenario takes effect: the handler produces a sensor specification that the scenario's own configuration model accepts "
+                 "(so addSensor can build the agent) and that carries the configured id, masks and field of view")
+def sensor_event_bounded(vc):
+    import datetime
+    from resonaate.scenario.config.event_configs import SensorAdditionEventConfig
+    from resonaate.scenario.config.agent_config import SensingAgentConfig
+    from resonaate.data.events.sensor_addition import SensorAdditionEvent
+    from resonaate.data.agent import AgentModel
+    kind = ["optical", "radar"][vc.int("sensor_kind", 0, 1)]
+    az = [vc.real("az_lo", 0, 359), vc.real("az_hi", 0, 359)]
+    rad = vc.real("orbit_radius", 6800, 42000)
+    lat, lon = vc.real("lat", -80, 80), vc.real("lon", -179, 179)
+    start = datetime.datetime(2021, 3, 30, 16, 5) + datetime.timedelta(seconds=vc.int("start_off", 0, 86400))
+
+    def sensor():
+        d = dict(type=kind, azimuth_range=list(az), elevation_range=[1, 89], aperture_diameter=1.0, efficiency=0.9, slew_rate=2.0,
+                 covariance=[[1e-8, 0], [0, 1e-8]] if kind == "optical" else [[1e-8, 0, 0, 0], [0, 1e-8, 0, 0], [0, 0, 1e-6, 0], [0, 0, 0, 1e-8]],
+                 field_of_view=dict(fov_shape="rectangular", azimuth_angle=8.0, elevation_angle=2.0), background_observations=False)
+        if kind != "optical":
+            d.update(tx_power=1e6, tx_frequency=1e9, min_detectable_power=1e-15)
+        return d
+
+    def delivered(platform, state):
+        try:
+            cfg = SensorAdditionEventConfig(scope="scenario_step", scope_instance_id=0, start_time=start, event_type="sensor_addition", tasking_engine_id=1,
+                                            sensor_agent=dict(id=60001, name="s", platform=platform, state=state, sensor=sensor()))
+            ev = SensorAdditionEvent.fromConfig(cfg)
+            ev.agent = AgentModel(unique_id=60001, name="s")
+            got = {}
+            ev.handleEvent(_NS(addSensor=lambda spec, eid: got.update(spec=spec, eid=eid)))
+            c = SensingAgentConfig(**got["spec"])
+            fov = c.sensor.field_of_view
+            return got["eid"] == 1 and c.id == 60001 and list(c.sensor.azimuth_range) == az and fov.azimuth_angle == 8.0 and fov.elevation_angle == 2.0
+        except Exception:  # noqa: BLE001
+            return False
+    vc.ensure("B-C01-sensor-event.space-based", delivered(dict(type="spacecraft"), dict(type="eci", position=[rad, 0.0, 0.0], velocity=[0.0, (398600.4418 / rad) ** 0.5, 0.0])))
+    vc.ensure("B-C01-sensor-event.ground-based", delivered(dict(type="ground_facility"), dict(type="lla", latitude=lat, longitude=lon, altitude=0.1)))
